@@ -59,6 +59,14 @@ enum Kind {
 }
 
 pub fn check(ctx: &mut Ctx) {
+    // on a terminal the stage chain is re-run on every refresh: the final table must still be the
+    // result for the lines that arrived — no group that only an intermediate table had (C01's
+    // live family, judged by an independent reference of the chain, under this property's name)
+    let nl = ctx.budget(48, 480);
+    for i in 0..nl {
+        let mut r = ctx.rng.fork();
+        super::c01::chain_live_as(ctx, i, &mut r, "live-agg-of-agg");
+    }
     let n = ctx.budget(1200, 12000);
     for _ in 0..n {
         let mut r = ctx.rng.fork();
